@@ -189,6 +189,15 @@ def judge(calls, plan, rs, bits, faulty_call=None):
                 return where + ": a loop is alive while the device is not in the streaming configuration"
         if is_start and r["res"] != 0 and alive != flag_before:
             return where + ": a failed start left a loop running"
+        # --- stopping halts the loop FIRST: whatever else a stop / close of a streaming camera does or fails to
+        #     do (a missing or wrongly typed AcquisitionStop / TLParamsLocked node, a failing register access ...),
+        #     halting the receive loop is its first operation; the only way to return without having halted it is
+        #     that halting the loop is itself the operation that failed
+        if call in (STOP, CLOSE) and flag_before:
+            codes = [e[0] for e in r["effs"]]
+            if codes[:1] != [E_LSTOP] and not (not codes and r.get("failed") == E_LSTOP):
+                return where + (": stop / close of a streaming camera did not halt the receive loop first "
+                                "(effects %r, result %d, failed operation %d)" % (codes, r["res"], r.get("failed", -1)))
         # --- the streaming flag matches whether a loop is running; device state as replayed
         f = r["flags"]
         if bool(f & F_LOOP) != alive:
